@@ -684,9 +684,17 @@ def fromAst : PyAst → Except AErr Expr
   | .call f as ns vs => do
       let g ← fromAst f
       let xs ← fromAstL as
-      let ys ← fromAstL vs
-      if ns.isEmpty then pure (.call g xs) else pure (.callKw g xs ns ys)
+      -- `if getattr(expr, "keywords", []):` the keyword values are mapped in that branch only
+      if ns.isEmpty then pure (.call g xs)
+      else do
+        let ys ← fromAstL vs
+        pure (.callKw g xs ns ys)
   | .attribute v a => do pure (.lookup (← fromAst v) a)
+  | .subscript v .absent => do
+      -- `none_or_rec(expr.slice)`: a `None` slice is passed through (found by the regenerated
+      -- handler table of extract/codegen.py; such a node does not come out of `ast.parse`)
+      let x ← fromAst v
+      pure (.subscript x (.const .none))
   | .subscript v s => do
       -- the index is mapped first (`index = none_or_rec(expr.slice)`), then the aggregate
       let i ← fromAst s
